@@ -114,7 +114,8 @@ func init() {
 		cells = append(cells, familyF2(th)...)
 		cells = append(cells, familyIdents()...)
 		cells = append(cells, familyHiddenTypes()...)
-		e.Rep.Rule("families F1 type matrix, F-name, F2 signatures, F3 struct shapes, F4 explicit notations, F5 hooks, F6 package layouts, F7 identifier spellings (blank / underscore-led / non-ASCII members, operand names equal to the names the generator invents), each a complete product over its alphabet " +
+		cells = append(cells, withPrior(familyF2(th), "x", 64)...)
+		e.Rep.Rule("64 F2 cells once more onto an output path that holds a longer earlier generation; families F1 type matrix, F-name, F2 signatures, F3 struct shapes, F4 explicit notations, F5 hooks, F6 package layouts, F7 identifier spellings (blank / underscore-led / non-ASCII members, operand names equal to the names the generator invents), each a complete product over its alphabet " +
 			"(F4 deviation-bounded in quick); oracle: exit 0 => output parses, is gofmt-clean and type-checks with zero errors in the ordinary build of its package; " +
 			"non-trivial = accepted cell whose function body contains at least one assignment")
 		var sampled int
